@@ -1,4 +1,190 @@
-import Stgutg.Model.NasProtect
-import Stgutg.Spec.NasSecurity
+/-
+  C10 — Downlink NAS messages from a conformant AMF are recovered exactly.
+  Property theorems only; helper lemmas live in Stgutg/Proofs/{Count,NasProtect}.lean.
+
+  Model: Stgutg.Model.NasProtect (`nasDecode` = tglib.NASDecode as repaired by F7, returning the octets it hands
+         to `PlainNasDecode`; `getNasPdu` = tglib.GetNasPdu; `Count`; `runDecode`) on top of Stgutg.Model.NasAlg.
+  Spec:  Stgutg.Spec.NasSecurity: the conformant AMF `amfProtect` / `amfRun` (its own DL NAS COUNT, increased after
+         every protected message, restarted at 0 by a new-context header type; `lost` = messages that consumed a
+         COUNT but never reached the UE) built on `protect` and the 128-NEA / 128-NIA algorithms of Spec.NasAlg.
+  `PrimsOk P`: cipher.NewCTR is a keystream cipher and the CMAC tag has at least four octets.
+
+  `InStep ue s`: the AMF's stored COUNT is the UE's estimate or one more (fresh context / after a delivery).
+  `DlInScope m`: header type 0..4, fewer than 255 undelivered messages before `m` (COUNT advances by < 256 between
+  deliveries — more cannot be bridged by an 8-bit sequence number), non-empty plain message.
+  A MAC mismatch is only printed by `NASDecode`, never refused; that is outside this property.
+-/
+import Stgutg.Proofs.NasProtect
+import Stgutg.Proofs.CryptoPrimsOk
+
 namespace Stgutg.Props.C10
+open Stgutg Stgutg.Model.NasProtect Stgutg.Proofs.NasProtect
+open Stgutg.Spec.NasSecurity
+
+/-- **One delivered message, from any state in step.** The octets the conformant AMF sends for `m` exist; given to
+    `NASDecode` they come back as exactly `m.plain`; for a protected message (COUNT `c` used by the AMF,
+    c = (its stored COUNT, or 0 under a new-context header type) + lost, mod 2^24) the UE's DL counter word is
+    then exactly `c` and nothing else in the UE context changed; a plain message changes nothing; and the two
+    sides are in step again. Header types 0..4, {NIA1,NIA2} × {NEA0,NEA1,NEA2}, any keys, any stored words. -/
+theorem step_recovers (P : Prims) (hP : PrimsOk P) (ue : UeSec) (s : Sender) (m : DlSend)
+    (hs : Supported ue) (hin : InStep ue s) (hsc : DlInScope m) :
+    ∃ out, (amfProtect P (ctxOf ue) s m.lost m.epd m.sht m.plain).2.2 = some out ∧
+      (nasDecode P ue (UInt8.ofNat m.sht) out).2 = .ok m.plain ∧
+      (m.sht = 0 → (amfProtect P (ctxOf ue) s m.lost m.epd m.sht m.plain).2.1 = none ∧
+                    (nasDecode P ue (UInt8.ofNat m.sht) out).1 = ue) ∧
+      (m.sht ≠ 0 →
+        (amfProtect P (ctxOf ue) s m.lost m.epd m.sht m.plain).2.1
+            = some (((if newContext m.sht then 0 else s.count) + m.lost) % 2 ^ 24) ∧
+        (nasDecode P ue (UInt8.ofNat m.sht) out).1
+            = { ue with dlCount := UInt32.ofNat (((if newContext m.sht then 0 else s.count) + m.lost) % 2 ^ 24) }) ∧
+      InStep (nasDecode P ue (UInt8.ofNat m.sht) out).1 (amfProtect P (ctxOf ue) s m.lost m.epd m.sht m.plain).1 := by
+  obtain ⟨out, h1, h2, -, h4⟩ := dl_step_full P hP ue s m hs hin hsc
+  refine ⟨out, h1, by rw [h2], ?_, ?_, h4⟩
+  · intro h0
+    have : (amfProtect P (ctxOf ue) s m.lost m.epd m.sht m.plain).2.1 = none := by simp [amfProtect, h0]
+    exact ⟨this, by rw [h2, this]⟩
+  · intro h0
+    have hb : (m.sht == 0) = false := by simpa using h0
+    have : (amfProtect P (ctxOf ue) s m.lost m.epd m.sht m.plain).2.1
+        = some (((if newContext m.sht then 0 else s.count) + m.lost) % 2 ^ 24) := by
+      simp [amfProtect, hb, countMod]
+    exact ⟨this, by rw [h2, this]⟩
+
+/-- **The DL NAS COUNT estimate equals the COUNT the AMF used**, read through the code's own accessor: after the
+    delivery of a protected message `Get()` returns that COUNT, `SQN()` its low octet and `Overflow()` the upper
+    16 bits — in particular the overflow counter has been incremented exactly when the sequence number wrapped. -/
+theorem count_estimate (P : Prims) (hP : PrimsOk P) (ue : UeSec) (s : Sender) (m : DlSend)
+    (hs : Supported ue) (hin : InStep ue s) (hsc : DlInScope m) (h0 : m.sht ≠ 0) :
+    ∃ out c, (amfProtect P (ctxOf ue) s m.lost m.epd m.sht m.plain).2 = (some c, some out) ∧ c < 2 ^ 24 ∧
+      (Count.get (nasDecode P ue (UInt8.ofNat m.sht) out).1.dlCount).2.toNat = c ∧
+      (Count.sqn (nasDecode P ue (UInt8.ofNat m.sht) out).1.dlCount).toNat = c % 256 ∧
+      (Count.overflow (nasDecode P ue (UInt8.ofNat m.sht) out).1.dlCount).toNat = c / 256 := by
+  obtain ⟨out, h1, -, -, h4, -⟩ := step_recovers P hP ue s m hs hin hsc
+  obtain ⟨hc, hue⟩ := h4 h0
+  have hlt : ((if newContext m.sht then 0 else s.count) + m.lost) % 2 ^ 24 < 2 ^ 24 := Nat.mod_lt _ (by decide)
+  refine ⟨out, _, Prod.ext hc h1, hlt, ?_, ?_, ?_⟩ <;> rw [hue] <;> simp only
+  · rw [Proofs.Count.toNat_get_value, UInt32.toNat_ofNat']; omega
+  · rw [Proofs.Count.toNat_sqn, UInt32.toNat_ofNat']; omega
+  · rw [Proofs.Count.toNat_overflow, UInt32.toNat_ofNat']; omega
+
+/-- the full statement over histories, parametric in the decoder so that it can be asked of the code before and
+    after the F7 repair (`Recovered`: message by message the plain octets come back, the UE's DL counter is the
+    AMF's COUNT for that message, a plain message leaves the UE context alone) -/
+def Statement (dec : Prims → UeSec → UInt8 → Bytes → UeSec × Res Bytes) : Prop :=
+  ∀ (P : Prims), PrimsOk P → ∀ (ue : UeSec) (s : Sender) (msgs : List DlSend),
+    Supported ue → InStep ue s → (∀ m ∈ msgs, DlInScope m) → Recovered dec P ue s msgs
+
+/-- **Any history of a conformant AMF is recovered** — any length, any number of sequence-number wraps and of
+    2^24 wraps, new-context restarts anywhere, plain messages in between, up to 254 undelivered messages before
+    each delivery. Holds for the repaired code. -/
+theorem history_recovers : Statement nasDecode :=
+  fun P hP ue s msgs hs hin hsc => dl_history P hP ue s msgs hs hin hsc
+
+/-- the same in list form: the AMF's history yields octet strings `outs`; feeding them one after the other to
+    `NASDecode` on one UE context yields exactly the plain messages, and afterwards UE and AMF are in step
+    (the UE's estimate is the COUNT of the last protected message delivered). -/
+theorem history_recovers_lists (P : Prims) (hP : PrimsOk P) (ue : UeSec) (s : Sender) (msgs : List DlSend)
+    (hs : Supported ue) (hin : InStep ue s) (hsc : ∀ m ∈ msgs, DlInScope m) :
+    ∃ outs : List Bytes,
+      (amfRun P (ctxOf ue) s msgs).2.map (·.2) = outs.map some ∧ outs.length = msgs.length ∧
+      (runDecode P ue ((msgs.map fun m => UInt8.ofNat m.sht).zip outs)).2 = msgs.map (fun m => Except.ok m.plain) ∧
+      InStep (runDecode P ue ((msgs.map fun m => UInt8.ofNat m.sht).zip outs)).1 (amfRun P (ctxOf ue) s msgs).1 := by
+  induction msgs generalizing ue s with
+  | nil => exact ⟨[], by simp [amfRun, runDecode, hin]⟩
+  | cons m ms ih =>
+    obtain ⟨out, h1, h2, -, h4⟩ := dl_step_full P hP ue s m hs hin (hsc m (by simp))
+    have hctx : ctxOf (nasDecode P ue (UInt8.ofNat m.sht) out).1 = ctxOf ue := by
+      rw [h2]; cases (amfProtect P (ctxOf ue) s m.lost m.epd m.sht m.plain).2.1 <;> rfl
+    have hsup : Supported (nasDecode P ue (UInt8.ofNat m.sht) out).1 := by
+      rw [h2]; cases (amfProtect P (ctxOf ue) s m.lost m.epd m.sht m.plain).2.1 <;> simpa [Supported] using hs
+    obtain ⟨outs, i1, i2, i3, i4⟩ := ih _ _ hsup h4 (fun x hx => hsc x (by simp [hx]))
+    rw [hctx] at i1 i4
+    refine ⟨out :: outs, ?_, by simp [i2], ?_, ?_⟩
+    · simp [amfRun, h1, i1]
+    · simp only [List.map_cons, List.zip_cons_cons, runDecode]
+      rw [i3, h2]
+    · simpa [amfRun, runDecode] using i4
+
+/-- a new-context header type (3 or 4) resets the estimate: whatever the UE's stored DL word was — no `InStep`
+    needed — the message protected under COUNT `lost` (0 when nothing was lost) is recovered and the UE's DL
+    counter is exactly that COUNT. -/
+theorem new_context_resets (P : Prims) (hP : PrimsOk P) (ue : UeSec) (hs : Supported ue) (sht lost : Nat) (epd : UInt8)
+    (plain out : Bytes) (hsht : sht = 3 ∨ sht = 4) (hlost : lost < 256) (hne : plain ≠ [])
+    (h : protect P (ctxOf ue) downlink lost epd sht plain = some out) :
+    nasDecode P ue (UInt8.ofNat sht) out = ({ ue with dlCount := UInt32.ofNat lost }, .ok plain) := by
+  apply dl_step P hP ue hs sht lost epd plain out hne (by omega) _ h
+  rcases hsht with rfl | rfl <;> simp [newContext] <;> omega
+
+/-- **GetNasPdu**: the NAS-PDU IE is found behind any number of other IEs, the header type is read from octet 2 of
+    the PDU, and the message of the conformant AMF (a plain message being a 5GMM message, octet 2 = 0) is
+    returned — same recovered octets, same counter state as `NASDecode`. -/
+theorem get_nas_pdu (P : Prims) (hP : PrimsOk P) (ue : UeSec) (s : Sender) (m : DlSend) (n : Nat)
+    (tail : List (Option Bytes))
+    (hs : Supported ue) (hin : InStep ue s) (hsc : DlInScope m)
+    (hplain : m.sht = 0 → ∃ e rest, m.plain = e :: 0 :: rest) :
+    ∃ out, (amfProtect P (ctxOf ue) s m.lost m.epd m.sht m.plain).2.2 = some out ∧
+      getNasPdu P ue (List.replicate n none ++ some out :: tail)
+        = ((nasDecode P ue (UInt8.ofNat m.sht) out).1, .ok (some m.plain)) := by
+  obtain ⟨out, h1, h2, -, -⟩ := dl_step_full P hP ue s m hs hin hsc
+  refine ⟨out, h1, ?_⟩
+  have hshape : ∃ e rest, out = e :: UInt8.ofNat m.sht :: rest := by
+    by_cases h0 : m.sht = 0
+    · obtain ⟨e, rest, hp⟩ := hplain h0
+      have : out = m.plain := by simpa [amfProtect, h0] using h1.symm
+      exact ⟨e, rest, by rw [this, hp, h0]; rfl⟩
+    · have hb : (m.sht == 0) = false := by simpa using h0
+      have hp : protect P (ctxOf ue) downlink (((if newContext m.sht then 0 else s.count) + m.lost) % countMod)
+          m.epd m.sht m.plain = some out := by simpa [amfProtect, hb] using h1
+      unfold protect at hp
+      split at hp
+      · simp at hp
+      · split at hp
+        · simp at hp
+        · split at hp
+          · simp at hp
+          · simp only [Option.some.injEq] at hp
+            exact ⟨m.epd, _, hp.symm⟩
+  obtain ⟨e, rest, rfl⟩ := hshape
+  rw [getNasPdu_skip, h2]
+  rfl
+
+/-- **F7 (before commit 8a2a16d).** The code deciphered with DIRECTION = uplink (and deciphered integrity-only
+    messages too). Witness: De-registration accept `7e 00 46`, header type 2, NEA2/NIA2, COUNT 0 — the first
+    message of a fresh context — is not recovered (`7a 04 42` is handed to the plain decoder). -/
+theorem statement_fails_before_F7_fix : ¬ Statement nasDecodeLegacy := by
+  intro h
+  have hr := h toyPrims toyPrims_ok
+    { ulCount := 0, dlCount := 0, cipheringAlg := 2, integrityAlg := 2, knasEnc := List.replicate 16 0, knasInt := List.replicate 16 0 }
+    ⟨0⟩ [{ lost := 0, epd := 0x7e, sht := 2, plain := [0x7e, 0x00, 0x46] }]
+    ⟨Or.inr rfl, Or.inr (Or.inr rfl)⟩ ⟨by decide, Or.inl rfl⟩
+    (by intro m hm; simp at hm; subst hm; exact ⟨by decide, by decide, by simp⟩)
+  obtain ⟨out, h1, h2, -⟩ := hr
+  have hout : out = [0x7e, 0x02, 0xa0, 0xa1, 0xa2, 0xa3, 0x00, 0xf2, 0x8c, 0xca] := by
+    have : (amfProtect toyPrims (ctxOf
+        { ulCount := 0, dlCount := 0, cipheringAlg := 2, integrityAlg := 2, knasEnc := List.replicate 16 0, knasInt := List.replicate 16 0 })
+        ⟨0⟩ 0 0x7e 2 [0x7e, 0x00, 0x46]).2.2 = some [0x7e, 0x02, 0xa0, 0xa1, 0xa2, 0xa3, 0x00, 0xf2, 0x8c, 0xca] := by rfl
+    rw [this] at h1
+    exact (Option.some.inj h1).symm
+  subst hout
+  have : (nasDecodeLegacy toyPrims
+      { ulCount := 0, dlCount := 0, cipheringAlg := 2, integrityAlg := 2, knasEnc := List.replicate 16 0, knasInt := List.replicate 16 0 }
+      (UInt8.ofNat 2) [0x7e, 0x02, 0xa0, 0xa1, 0xa2, 0xa3, 0x00, 0xf2, 0x8c, 0xca]).2 = .ok [0x7a, 0x04, 0x42] := by rfl
+  rw [this] at h2
+  have := Except.ok.inj h2
+  revert this
+  decide
+
+/-! ### the hypotheses are satisfiable -/
+
+example : ∃ P, PrimsOk P := ⟨toyPrims, toyPrims_ok⟩
+/-- … and by the real SP 800-38A CTR / RFC 4493 CMAC over AES-128 (the comparator's executable instance) -/
+example : PrimsOk Crypto.prims := cryptoPrims_ok
+/-- fresh context: both sides at 0 -/
+example : InStep { ulCount := 0, dlCount := 0, cipheringAlg := 2, integrityAlg := 1, knasEnc := [], knasInt := [] } ⟨0⟩ :=
+  ⟨by decide, Or.inl rfl⟩
+/-- mid-life, just before the 24-bit wrap: the UE holds 2^24 − 1, the AMF's next COUNT is 0 -/
+example : InStep { ulCount := 0, dlCount := 0x00ffffff, cipheringAlg := 1, integrityAlg := 2, knasEnc := [], knasInt := [] } ⟨0⟩ :=
+  ⟨by decide, Or.inr (by decide)⟩
+example : DlInScope { lost := 254, epd := 0x7e, sht := 4, plain := [0x7e, 0, 0x5d] } := ⟨by decide, by decide, by simp⟩
+
 end Stgutg.Props.C10
